@@ -160,6 +160,15 @@ class History:
             results.extend(self.apply_placed(step))
         elif op == 'twin':
             self.apply_twin(step)
+        elif op == 'open_foreign':
+            w.open_foreign_pr(step['src'], step['dst'],
+                              step.get('author', AUTHOR),
+                              create_src=step.get('create_src', True),
+                              create_dst=step.get('create_dst', False))
+        elif op == 'probe_path':
+            self.apply_probe_path(step)
+        elif op == 'compare_probe':
+            results.extend(self.apply_compare_probe(step))
         elif op == 'repeat':
             results.extend(self.apply_repeat(step))
         elif op == 'drain':
@@ -327,6 +336,69 @@ class History:
                     step.get('tag', 'twin'), step['a'], step['b'], detail),
                 {'monitor': step.get('tag', 'twin'),
                  'clause': 'twin_differs_' + '_'.join(sorted(diffs))}))
+
+    def ref_shape(self):
+        """Branch names with the tree id of their tip (date independent)."""
+        from vf.sim.gitutil import tree_of
+        w = self.world
+        return sorted((n, tree_of(w.remote, sha))
+                      for n, sha in w.heads().items())
+
+    def progress(self, pr):
+        """merged / queued / pending, from refs only."""
+        w = self.world
+        info = w.prs.get(pr)
+        if not info:
+            return None
+        heads = w.heads()
+        if info['src'] in heads and info['dst'] in heads and \
+                w.is_ancestor(heads[info['src']], heads[info['dst']]):
+            return 'merged'
+        if any(n.startswith('q/w/%d/' % pr) for n in heads):
+            return 'queued'
+        return 'pending'
+
+    def apply_probe_path(self, step):
+        """Run step['steps'] on a snapshot; remember status of the last job
+        and the final ref shape under step['slot']; restore."""
+        def go():
+            last = None
+            for st_ in step['steps']:
+                n = len(self.steps)
+                res = self.apply(st_)
+                del self.steps[n:]
+                if res:
+                    last = res[-1]
+            return {'progress': self.progress(step.get('pr')),
+                    'shape': self.ref_shape()}
+        nv = len(self.violations)
+        out = self.on_snapshot(go)
+        del self.violations[nv:]     # the probe path is not judged
+        self.mon_state.setdefault('probes', {})[step['slot']] = out
+
+    def apply_compare_probe(self, step):
+        job = self.job_from(step['final'])
+        if job is None:
+            return []
+        res = self.run(job, step)
+        probe = self.mon_state.get('probes', {}).get(step['slot'])
+        if probe is None:
+            return [res]
+        self.count('probe_compared')
+        mine = {'progress': self.progress(step.get('pr')),
+                'shape': self.ref_shape()}
+        diffs = [k for k in mine if mine[k] != probe[k]]
+        if diffs:
+            self.violations.append((
+                '%s: after the hold was lifted the evaluation differs from '
+                'the world that never had it: %s' % (
+                    step.get('tag', 'C12'),
+                    '; '.join('%s: %r vs %r' % ((k,) + _short(mine[k],
+                                                               probe[k]))
+                              for k in diffs)),
+                {'monitor': step.get('tag', 'C12'),
+                 'clause': 'after_lift_differs_' + '_'.join(sorted(diffs))}))
+        return [res]
 
     def apply_quiet(self, step):
         """Apply a non-job step without logging it (used inside twins)."""
